@@ -63,6 +63,17 @@ M = [
     ("C08", "msm-cache-W", "black_it/loss_functions/msm.py", "                / np.mean((real_mom_1d[None, :] - ensemble_sim_mom_1d) ** 2, axis=0),\n            )", "                / np.mean((real_mom_1d[None, :] - ensemble_sim_mom_1d) ** 2, axis=0),\n            )\n            self._covariance_mat = W"),
     ("C08", "len-ge", "black_it/loss_functions/base.py", "                nb_coordinate_weights == num_coords,", "                nb_coordinate_weights >= num_coords,"),
     ("C08", "lik-last-member", "black_it/loss_functions/likelihood.py", "log_lik_real_series = np.sum(log_lik_real_series_r, axis=0) / r", "log_lik_real_series = (np.sum(log_lik_real_series_r, axis=0) + log_lik_real_series_r[-1] - log_lik_real_series_r[0]) / r"),
+    ("C07", "mink-drop-filters", "black_it/loss_functions/minkowski.py", "super().__init__(coordinate_weights, coordinate_filters)", "super().__init__(coordinate_weights)"),
+    ("C07", "msm-std-nodivide-real", "black_it/loss_functions/msm.py", "            real_mom_1d = real_mom_1d / abs(real_mom_1d)\n", "            real_mom_1d = real_mom_1d / real_mom_1d\n"),
+    ("C07", "msm-invvar-no-mean", "black_it/loss_functions/msm.py", "/ np.mean((real_mom_1d[None, :] - ensemble_sim_mom_1d) ** 2, axis=0),", "/ np.sum((real_mom_1d[None, :] - ensemble_sim_mom_1d) ** 2, axis=0),"),
+    ("C07", "fourier-norm", "black_it/loss_functions/fourier.py", "return np.sqrt(np.sum((abs(f_sim_data - f_real_data)) ** 2) / ts_length)", "return np.sqrt(np.sum((abs(f_sim_data - f_real_data)) ** 2) / len(real_data))"),
+    ("C07", "fourier-ideal-n", "black_it/loss_functions/fourier.py", "    mask[:n] = 1.0", "    mask[: n + 1] = 1.0"),
+    ("C07", "gsl-side-right", "black_it/loss_functions/gsl_div.py", 'return np.searchsorted(linspace, time_series, side="left")', 'return np.searchsorted(linspace, time_series, side="right")'),
+    ("C07", "gsl-weight", "black_it/loss_functions/gsl_div.py", "weight = weight + 2 / (nb_word_lengths * (nb_word_lengths + 1))", "weight = weight + 2 / (nb_word_lengths * (nb_word_lengths - 1) + 2)"),
+    ("C07", "gsl-corr", "black_it/loss_functions/gsl_div.py", "corr = ((len(m_xp) - 1) - (len(sim_xp) - 1)) / (2 * ts_length)", "corr = ((len(m_xp) - 1) - (len(sim_xp) - 1)) / (2 * len(sim_xw))"),
+    ("C07", "lik-scale", "black_it/loss_functions/likelihood.py", "            1.0\n            / d\n            * np.sum(", "            1.0\n            / max(d, 2)\n            * np.sum("),
+    ("C07", "lik-silverman", "black_it/loss_functions/likelihood.py", "return ((n * (d + 2)) / 4) ** (-1 / (d + 4))", "return ((n * (d + 2)) / 4) ** (-1 / (d + 5))"),
+    ("C07", "base-filter-real-too", "black_it/loss_functions/base.py", "loss += self.compute_loss_1d(filtered_data[i], real_data[:, i]) * weights[i]", "loss += self.compute_loss_1d(filtered_data[i], real_data[:, i] if filters[i] is None else filters[i](real_data[:, i])) * weights[i]"),
     ("C15", "no-tolerance", "black_it/search_space.py", "parameters_bounds[1][i] + 0.0000001,", "parameters_bounds[1][i],"),
 ]
 
@@ -91,7 +102,7 @@ def main():
             continue
         try:
             p.write_text(src.replace(old, new, 1))
-            r = sh(f"cd /verif && ./check {pid} --tier {tier}")
+            r = sh(f"cd /verif && timeout 400 ./check {pid} --tier {tier}")
             v = [l for l in r.stdout.splitlines() if l.startswith("VIOLATION")]
             res.append((pid, name, f"exit={r.returncode} " + ("DETECTED" if r.returncode == 1 and v else "MISSED") + " " + (r.stdout.strip().splitlines()[-1][:160] if r.stdout.strip() else r.stderr[-200:])))
         finally:
